@@ -13,7 +13,7 @@ replay = make_replay('C12')
 FINISH = dict(
     rule='P/T: one obligation per path of the real function (all paths enumerated) or per table key; '
          'B: spellings / molecules with stereo elements, non-trivial = has at least one stereo element',
-    explanation='Table lemmas by complete enumeration; sign translators and geometric sign functions executed symbolically on the real '
+    explanation='F: no memoised value read by this property\'s observables survives an edit it depends on (one obligation per covered mutator x cached key); Table lemmas by complete enumeration; sign translators and geometric sign functions executed symbolically on the real '
                 'function objects (symbolic pairwise-distinct atom numbers, symbolic stored sign, real-valued coordinates), every path '
                 'discharged by z3; agreement with RDKit is bounded only.',
     trusted_base=['CPython 3.12', 'z3 5.1 (BV, nlsat)', 'pysym proxies (unit-checked against CPython at setup)',
